@@ -103,9 +103,16 @@ struct W {
     /// datagrams whose last two payload octets were chosen so that the UDP checksum computes to 0x0000 (it must then be
     /// transmitted as 0xffff): datagram id -> the two octets
     patch: HashMap<u32, [u8; 2]>,
+    /// a host (last octet) whose IP datagrams arrive from another station's hardware address than the one its ARP /
+    /// neighbour-discovery answers give: such traffic does not confirm the learned address
+    impostor: Option<u8>,
 }
 
 impl W {
+    fn src_mac(&self, src: [u8; 4]) -> [u8; 6] {
+        if src[2] == 0 && self.impostor == Some(src[3]) { [2, 0, 0, 0, 9, src[3]] } else { mac_of(src) }
+    }
+
     /// which socket a datagram on the wire belongs to (`sk`), its size as the socket counts it, its identity and
     /// the position of the first octet that differs from what the application wrote
     fn dgram(&self, v: &mut Value, ip: &IpPkt, from_me: bool) {
@@ -446,7 +453,7 @@ pub fn random(args: &Args) {
             scfg.push(json!({"port": 6004, "rxm": rxm, "rxp": rxp, "txm": 1, "txp": 64}));
             socks.push(SockCfg { h, kind: 3, port: 6004, rxm, rxp, txm: 1, txp: 64 });
         }
-        let mut w = W { iface, dev, sockets, socks, now: 0, sizes: HashMap::new(), v6, icmp_udp, patch: HashMap::new() };
+        let mut w = W { iface, dev, sockets, socks, now: 0, sizes: HashMap::new(), v6, icmp_udp, patch: HashMap::new(), impostor: if run % 4 == 1 { Some(2 + (run as u8 / 4) % 3) } else { None } };
         // behaviour of the virtual stations
         // (ordered map: iteration order feeds random picks, and runs must be reproducible from (seed, run))
         let mut arp_delay: std::collections::BTreeMap<u8, i64> = std::collections::BTreeMap::new(); // last octet -> delay in ms (-1: never answers)
@@ -800,7 +807,7 @@ fn inbound_to(w: &mut W, v6: bool, h: u8, did: u32, size: usize, port: u16, iden
         p[6] = 0;
         p.extend_from_slice(&[proto, 0, 1, 4, 0, 0, 0, 0]);
         p.extend_from_slice(&inner[40..]);
-        return eth_frame(dm, mac_of(src), 0x86dd, &p);
+        return eth_frame(dm, w.src_mac(src), 0x86dd, &p);
     }
     if v6 {
         let mut all_nodes = [0u8; 16];
@@ -808,14 +815,14 @@ fn inbound_to(w: &mut W, v6: bool, h: u8, did: u32, size: usize, port: u16, iden
         all_nodes[1] = 0x02;
         all_nodes[15] = 1;
         let (dm, da) = if dk == 0 { (MY_MAC, a6(MY_IP)) } else { ([0x33, 0x33, 0, 0, 0, 1], all_nodes) };
-        eth_frame(dm, mac_of(src), 0x86dd, &ipv6_packet(a6(src), da, proto, 64, &body, true))
+        eth_frame(dm, w.src_mac(src), 0x86dd, &ipv6_packet(a6(src), da, proto, 64, &body, true))
     } else {
         let (dm, da) = match dk {
             0 => (MY_MAC, MY_IP),
             1 => ([0xff; 6], [10, 0, 0, 255]),
             _ => ([0xff; 6], [255, 255, 255, 255]),
         };
-        eth_frame(dm, mac_of(src), 0x0800, &ipv4_packet(src, da, proto, ident, 64, &body, true))
+        eth_frame(dm, w.src_mac(src), 0x0800, &ipv4_packet(src, da, proto, ident, 64, &body, true))
     }
 }
 
